@@ -1860,7 +1860,15 @@ func parseStringLiteralContent(p *parser, s []byte) (result string) {
 			}
 
 			if digitIndex > 0 && valid {
-				builder.WriteRune(r2)
+				if utf8.ValidRune(r2) {
+					builder.WriteRune(r2)
+				} else {
+					// NOTE: writing an invalid rune would silently write the replacement character
+					p.reportSyntaxError(
+						"invalid Unicode escape sequence: %X is not a Unicode scalar value",
+						uint32(r2),
+					)
+				}
 			}
 
 			if r != '}' {
